@@ -1,7 +1,13 @@
-package c21scratch
+// Stand-alone reproductions (outside the monitor) of the two handleSessionChat defects the C21
+// monitor found; see /verif/proposed_fixes/C21-denied-chat-loses-acks.md and
+// C21-signed-chat-rewrite-nil-future-panic.md. Run:
+//
+//	cd /verif/harness && go test -tags verif -vet=off -count=1 -v -run 'TestRepro' ./c21/
+package c21
 
 import (
 	"fmt"
+	"sync"
 	"testing"
 	"time"
 
@@ -16,14 +22,26 @@ import (
 	"go.minekube.com/gate/pkg/util/uuid"
 )
 
+var (
+	recvMu   sync.Mutex
+	received int // acknowledgements the backend received (explicit + carried)
+)
+
 func fixture(force bool, sub func(e *proxy.PlayerChatEvent)) (*proxy.VerifC21Chat, *mcrec.Conn, *mcrec.Conn) {
+	recvMu.Lock()
+	received = 0
+	recvMu.Unlock()
 	client := mcrec.New(765)
 	backend := mcrec.New(765)
 	backend.OnPacket = func(p proto.Packet, _ bool) {
+		recvMu.Lock()
+		defer recvMu.Unlock()
 		switch v := p.(type) {
 		case *chat.SessionPlayerChat:
+			received += v.LastSeenMessages.Offset
 			fmt.Printf("backend: chat %q off=%d signed=%v\n", v.Message, v.LastSeenMessages.Offset, v.Signed)
 		case *chat.ChatAcknowledgement:
+			received += v.Offset
 			fmt.Printf("backend: ack %d\n", v.Offset)
 		default:
 			fmt.Printf("backend: %T\n", p)
@@ -38,7 +56,7 @@ func fixture(force bool, sub func(e *proxy.PlayerChatEvent)) (*proxy.VerifC21Cha
 	return fx, client, backend
 }
 
-func TestDenied(t *testing.T) {
+func TestReproDeniedChatLosesAcks(t *testing.T) {
 	fx, _, _ := fixture(false, func(e *proxy.PlayerChatEvent) {
 		if e.Message() == "bad" {
 			e.SetAllowed(false)
@@ -47,23 +65,30 @@ func TestDenied(t *testing.T) {
 	ts := time.UnixMilli(1_700_000_000_000)
 	fx.HandlePacket(&chat.ChatAcknowledgement{Offset: 5})
 	fx.HandlePacket(&chat.SessionPlayerChat{Message: "bad", Timestamp: ts, LastSeenMessages: chat.LastSeenMessages{Offset: 3}})
-	time.Sleep(50 * time.Millisecond)
-	fmt.Println("held after denied chat:", fx.HeldAcks())
 	fx.HandlePacket(&chat.SessionPlayerChat{Message: "bye", Timestamp: ts.Add(time.Second), LastSeenMessages: chat.LastSeenMessages{Offset: 1}})
-	time.Sleep(50 * time.Millisecond)
-	fmt.Println("client expressed 9; held:", fx.HeldAcks())
+	time.Sleep(100 * time.Millisecond)
+	recvMu.Lock()
+	got := received
+	recvMu.Unlock()
+	if got+fx.HeldAcks() != 9 {
+		t.Fatalf("the client expressed 9 acknowledgements, the backend received %d and %d are held: %d lost at the denied chat", got, fx.HeldAcks(), 9-got-fx.HeldAcks())
+	}
 }
 
-func TestSignedRewriteForce(t *testing.T) {
+func TestReproSignedChatRewriteNilFuture(t *testing.T) {
 	fx, _, _ := fixture(true, func(e *proxy.PlayerChatEvent) {
 		if e.Message() == "bad" {
 			e.SetMessage("good")
 		}
 	})
 	ts := time.UnixMilli(1_700_000_000_000)
-	defer func() { fmt.Println("recovered in feeder:", recover()) }()
+	defer func() {
+		if r := recover(); r != nil {
+			t.Fatalf("rewriting a signed chat message under forceKeyAuthentication panics: %v", r)
+		}
+	}()
+	// the queue is idle, so the task runs (and panics) on this goroutine; with a chat write in
+	// flight it runs on chatQueue.writePacket's goroutine and takes the process down
 	fx.HandlePacket(&chat.SessionPlayerChat{Message: "bad", Signed: true, Signature: make([]byte, 256), Timestamp: ts, LastSeenMessages: chat.LastSeenMessages{Offset: 3}})
-	time.Sleep(50 * time.Millisecond)
-	fx.HandlePacket(&chat.SessionPlayerChat{Message: "bye", Timestamp: ts.Add(time.Second), LastSeenMessages: chat.LastSeenMessages{Offset: 1}})
 	time.Sleep(50 * time.Millisecond)
 }
